@@ -261,6 +261,15 @@ def snap_project(p, depth=0):
         mods.pop()
     d["modules"] = mods
     d["patterns"] = [snap_pattern(x) for x in p.patterns]
+    if tuple(p.sunvox_version) < (1, 9, 5, 0):
+        # a project that will be written as a file of a SunVox version before 1.9.5.0: such files carry
+        # 8-bit module columns (documented reader rule, see C04), so that is what the project holds
+        # as far as files are concerned.  (Loaded projects always have the library's own version here.)
+        for pt in d["patterns"]:
+            if pt and pt.get("kind") == "pattern":
+                for line in pt["data"]:
+                    for c in line:
+                        c[2] &= 0xFF
     return d
 
 
